@@ -534,7 +534,7 @@ def vkey(msg):
 
 
 def param_list(tier):
-    versions = [4, 8, 9, 14] if tier == "quick" else ezspenv.VERSIONS
+    versions = [4, 8, 9, 13, 14] if tier == "quick" else ezspenv.VERSIONS   # 13 | 14: both sides of the v14 layout switch
     pairs = [("U", "U2"), ("S", "U"), ("X", "S"), ("S", "X"), ("I", "S"), ("M", "U"), ("B", "S"), ("U", "Iu"), ("U", "M")]
     out = []
     for v in versions:
